@@ -1,5 +1,5 @@
 (* C14 - a truncated or marker-corrupted container file yields a true prefix, then an error. *)
-From AvroV Require Import Base Varint Schema Bytes Names Codec Container VarintP BytesP ContainerP.
+From AvroV Require Import Base Varint Schema Bytes Names Codec Conforms Container VarintP BytesP ContainerP HeaderP.
 Open Scope N_scope.
 
 (* For ANY spec-conforming sequence of blocks (any codec with c_decomp inverting the payloads, any
@@ -34,6 +34,17 @@ Theorem C14_marker_corruption :
                              ++ b_payload b ++ m') ++ body marker post)
       = (concat (map b_vals pre), Failed).
 Proof. exact marker_corruption. Qed.
+
+(* A cut inside the header - in the magic, anywhere in the metadata map, or in the marker - makes the
+   file impossible to open: no value is delivered.  For every metadata map (any entries, any order) and
+   every cut point; the header is the one the writer emits (header_bytes). *)
+Theorem C14_header_cut :
+  forall (c : cfg) order fixed st (k : nat),
+    conforms 2 c [] None (SMap SBytes []) (meta_value (order (fixed ++ w_meta st))) = true ->
+    lenN (w_marker st) = 16 ->
+    (k < length (header_bytes order fixed st))%nat ->
+    ropen c (firstn k (header_bytes order fixed st)) = Err.
+Proof. exact written_header_cut. Qed.
 
 (* non-vacuity: two blocks of longs with the null codec, cut inside the second block's count *)
 Definition ex_dec (bs : bytes) : res (value * bytes) :=
